@@ -9,8 +9,8 @@ CHECKS = {
  # id: (engine, design_ref, technique, level text, level note)
  "C01": ("seqx", "DESIGN.md §4 E1, §5 C01",
    "bounded-exhaustive enumeration of RFC 6902 operation sequences on the real code vs. a reference evaluator",
-   "Every operation sequence up to the stated depth over an alphabet rebuilt from the current reference state (all resolvable pointers, near-misses, 8 value shapes, 6 operations) is executed through DecodePatch+ApplyWithOptions on every curated document with SupportNegativeIndices on and off, and compared with an independent RFC 6902/6901 evaluator through an independent literal-preserving JSON reader. Exhaustive within the bound; nothing sampled.",
-   T+"Bounds: depth 2 (quick) / 3 (thorough), 12 curated documents, value alphabet; data outside the alphabet is covered only by the one-representative-per-branch argument."),
+   "Every operation sequence up to the stated depth over an alphabet rebuilt from the current reference state (all resolvable pointers, near-misses, interior negative indices, 8 value shapes + an 80-byte value, 6 operations; from the second operation on also probes for stale internal state: the starting document's values and locations) is executed through DecodePatch+ApplyWithOptions on 15 curated documents with SupportNegativeIndices on and off and the package defaults set to the opposite, and compared with an independent RFC 6902/6901 evaluator through an independent literal-preserving JSON reader. Plus a mini depth-3 phase, a package-defaults phase through Apply and ApplyIndent, and a scale phase (40-member object, 600- and 260-element arrays, 14-level document). Exhaustive within the bound; nothing sampled.",
+   T+"Bounds: depth 2 (+ a mini depth-3 phase) quick; thorough adds a depth-3 phase on 4 core documents with reduced 2nd/3rd alphabets (256 M sequences, 13 min); data outside the alphabets is covered only by the one-representative-per-branch argument (DESIGN section 7 shows where that failed and what was added)."),
  "C02": ("mergex", "DESIGN.md §4 E2, §5 C02",
    "exhaustive enumeration of (document, merge patch) edges over value families vs. RFC 7396 pseudo-code",
    "All edges D x P over enumerated value families (every JSON value of bounded depth/width over a small name and scalar alphabet, incl. type changes at depth 3 and nulls inside arrays) are run through MergePatch and compared with the RFC 7396 pseudo-code on independent trees; documents and patches are also fed in reordered / whitespace / escaped spellings.",
@@ -73,11 +73,11 @@ CHECKS = {
    T+"Domains as stated in the property."),
  "C09": ("histx", "DESIGN.md §4 E5, §5 C09",
    "explicit-state breadth-first search over call histories on the real code, with every sync.Pool answer and every map iteration order an explorer-owned choice; state = dump of all process-wide library state; oracle = outcome equals the solo outcome, inputs unchanged",
-   "All histories of up to 3 (thorough: more) calls from a menu of 27 exported-API calls over ONE shared set of decoded Patch values and input buffers (successes, failures, malformed inputs, both packages), built against a shim of the sync package so that which pooled decoder/encoder/scanner object a Get returns (most recent, any other, or a fresh one) and the order of every map iteration are enumerated within a deviation budget. States are merged on a generic dump of every package-level variable of the library packages (incl. every private field of every recycled object); every transition is judged: same error text / same bytes (Apply, ApplyIndent, CreateMergePatch, Equal) / same JSON value as the call made alone in a fresh process, and no shared buffer or Patch changed.",
+   "All histories of up to 3 calls (default pool answers and map orders) and of up to 2 calls with one deviation (thorough: 4/0, 3/1, 2/2) from a menu of 55 exported-API calls over ONE shared set of decoded Patch values and input buffers (successes, failures, malformed inputs, both packages), built against a shim of the sync package so that which pooled decoder/encoder/scanner object a Get returns (most recent, any other, or a fresh one) and the order of every map iteration are enumerated within a deviation budget. States are merged on a generic dump of every package-level variable of the library packages (incl. every private field of every recycled object); every transition is judged: same error text / same bytes (Apply, ApplyIndent, CreateMergePatch, Equal) / same JSON value as the call made alone in a brand-new process (one subprocess per menu entry), no shared buffer, Patch or ApplyOptions value changed, results returned earlier still hold their bytes, and a caller overwriting a returned slice does not change the next call.",
    T+"Closure of the state space is not reached with the exact dump (recycled objects remember their last input), so the claim is bounded by depth; the dump omits slice capacity and elements beyond len. Only exported functions are driven."),
  "C10": ("schedx", "DESIGN.md §4 E6, §5 C10",
    "stateless depth-first exploration of every schedule of 2-3 goroutine harnesses up to a preemption bound under a controlled scheduler on the real code (sync shim + injected statement points), plus a free-running race-detector pass over the same bodies",
-   "Every unordered pair of 9 exported-API calls (and three 3-goroutine scenarios) on ONE shared Patch and shared input slices, with cold and warm type caches, is run under a cooperative scheduler that owns every sync.Pool/Map/WaitGroup operation of the codec (configuration A) and additionally every statement boundary of the functions touching them (configuration B); all schedules within the preemption bound are enumerated (Pool.Get answers share the budget), each complete schedule judged: every call returns its solo outcome, inputs and Patch unchanged, no panic, no deadlock. Replays are deterministic (map iteration fixed at build time; the default schedule is run twice). The 'no data race' clause is decided by the Go race detector on the same bodies running freely over a mutex-guarded global pool (so goroutines really exchange pooled objects).",
+   "Every unordered pair of 11 exported-API calls (and 3-goroutine scenarios) on ONE shared Patch and shared input slices, with cold and warm type caches, is run under a cooperative scheduler that owns every sync.Pool/Map/WaitGroup operation of the codec (configuration A) and additionally every statement boundary of the functions touching them, an atomic, or a package-level variable some function writes (configuration B); all schedules within the preemption bound are enumerated (Pool.Get answers share the budget), each complete schedule judged: every call returns its solo outcome, inputs and Patch unchanged, no panic, no deadlock. Replays are deterministic (map iteration fixed at build time; the default schedule is run twice). The 'no data race' clause is decided by the Go race detector on the same bodies running freely over a mutex-guarded global pool (so goroutines really exchange pooled objects).",
    T+"The race half is detection on executed accesses, not enumeration; it is reported separately in the evidence (race_pass). Standard-library internals are trusted. The legacy package is covered by the race half only."),
  "C17": ("codecx", "DESIGN.md §4 E4, §5 C17",
    "bounded-exhaustive enumeration of JSON texts x spellings, of run-time generated Go types x values x texts, and of Decoder scripts x every split of the stream into reads, each compared with an independent reader or with encoding/json",
